@@ -787,6 +787,10 @@ func (en *Env) callExpr(e *ECall) Val {
 			x := en.eval(e.Args[0])
 			y := en.eval(e.Args[1])
 			return boolVal(en.ex.errIs(x, y))
+		case "fs":
+			// fs(name): content id of the file (0 absent, -1 partial/corrupt, >0 complete content)
+			n := en.eval(e.Args[0])
+			return Val{T: types.Typ[types.UnsafePointer], L: []string{sel(en.ex.heapGet(en.st, "FS|c", sArr(sStr, sInt)), n.L[0])}}
 		case "contains":
 			sv := en.eval(e.Args[0])
 			xv := en.eval(e.Args[1])
